@@ -7,17 +7,24 @@ records fail to load, `CleanDatabase`, compaction.
 namespace Rain.Registry
 open List
 
-/-- A step that leaves the failed records alone and introduces no id. -/
+/-- A step that leaves the failed records and the invalid list alone, registers no torrent, and
+neither adds nor drops an add that has written. -/
 theorem dinv_same {s s' : State} (h : DInv s) (hd : s'.dead = s.dead) (hi : s'.invalid = s.invalid)
-    (hr : ∀ id ∈ s'.regIds, id ∈ s.regIds ∨ id ∈ s.pendIds)
-    (hp : ∀ id ∈ s'.pendIds, id ∈ s.regIds ∨ id ∈ s.pendIds) : DInv s' := by
-  refine ⟨?_, ?_, ?_⟩
-  · rw [hi, h.inv]; simp [State.deadIds, hd]
-  · intro id hid
-    rw [hi] at hid
-    obtain ⟨h1, h2⟩ := h.fresh id hid
-    exact ⟨fun hc => (hr id hc).elim h1 h2, fun hc => (hp id hc).elim h1 h2⟩
-  · simpa [State.deadIds, hd] using h.nodup
+    (hr : ∀ id ∈ s'.regIds, id ∈ s.regIds)
+    (hp1 : ∀ q ∈ s.pending, q.stage = .written → q ∈ s'.pending)
+    (hp2 : ∀ q ∈ s'.pending, q.stage = .written → q ∈ s.pending) : DInv s' := by
+  have hdi : s'.deadIds = s.deadIds := by simp [State.deadIds, hd]
+  refine ⟨?_, ?_, ?_, ?_, ?_, ?_⟩
+  · rw [hdi]; exact h.deadNodup
+  · rw [hi]; exact h.invNodup
+  · rw [hdi, hi]; exact h.deadInv
+  · rw [hdi, hi]
+    intro id hid
+    rcases h.invSrc id hid with h1 | ⟨q, hq, he, hw⟩
+    · exact Or.inl h1
+    · exact Or.inr ⟨q, hp1 q hq hw, he, hw⟩
+  · rw [hi]; exact fun id hid hc => h.fresh id hid (hr id hc)
+  · rw [hdi]; exact fun q hq hw => h.wdead q (hp2 q hq hw) hw
 
 theorem regModify_ids (reg : List Torrent) (id : String) (g : Fields → Fields) :
     (regModify reg id g).map (·.id) = reg.map (·.id) := regModify_map _ _ _ _ (fun _ => rfl)
@@ -25,32 +32,32 @@ theorem regModify_ids (reg : List Torrent) (id : String) (g : Fields → Fields)
 theorem dinv_start {s : State} (h : DInv s) (id : String) : DInv (start s id) := by
   unfold start
   split
-  · exact dinv_same h rfl rfl (fun i hi => Or.inl (by simpa [State.regIds, regModify_ids] using hi)) (fun i hi => Or.inr hi)
+  · exact dinv_same h rfl rfl (fun i hi => by simpa [State.regIds, regModify_ids] using hi) (fun _ hq _ => hq) (fun _ hq _ => hq)
   · exact h
 
 theorem dinv_stop {s : State} (h : DInv s) (id : String) : DInv (stop s id) := by
   unfold stop
   split
-  · exact dinv_same h rfl rfl (fun i hi => Or.inl (by simpa [State.regIds, regModify_ids] using hi)) (fun i hi => Or.inr hi)
+  · exact dinv_same h rfl rfl (fun i hi => by simpa [State.regIds, regModify_ids] using hi) (fun _ hq _ => hq) (fun _ hq _ => hq)
   · exact h
 
 theorem dinv_addTracker {s : State} (h : DInv s) (id uri : String) : DInv (addTracker s id uri) := by
   unfold addTracker
   split
-  · exact dinv_same h rfl rfl (fun i hi => Or.inl (by simpa [State.regIds, regModify_ids] using hi)) (fun i hi => Or.inr hi)
+  · exact dinv_same h rfl rfl (fun i hi => by simpa [State.regIds, regModify_ids] using hi) (fun _ hq _ => hq) (fun _ hq _ => hq)
   · exact h
 
 theorem dinv_bump {s : State} (h : DInv s) (id : String) (d : Counters) : DInv (bump s id d) :=
-  dinv_same h rfl rfl (fun i hi => Or.inl (by simpa [bump, State.regIds, regModify_ids] using hi)) (fun i hi => Or.inr hi)
+  dinv_same h rfl rfl (fun i hi => by simpa [bump, State.regIds, regModify_ids] using hi) (fun _ hq _ => hq) (fun _ hq _ => hq)
 
 theorem dinv_updateStats {s : State} (h : DInv s) : DInv (updateStats s) :=
-  dinv_same h rfl rfl (fun _ hi => Or.inl hi) (fun _ hi => Or.inr hi)
+  dinv_same h rfl rfl (fun _ hi => hi) (fun _ hq _ => hq) (fun _ hq _ => hq)
 
 theorem dinv_remove {s : State} (h : DInv s) (id : String) : DInv (remove s id) := by
   unfold remove
   split
   · exact h
-  · refine dinv_same h rfl rfl (fun i hi => Or.inl ?_) (fun i hi => Or.inr hi)
+  · refine dinv_same h rfl rfl (fun i hi => ?_) (fun _ hq _ => hq) (fun _ hq _ => hq)
     exact ((List.filter_sublist).map _).subset hi
 
 theorem dinv_tamper {s : State} (h : DInv s) (id ih : String) : DInv (tamper s id ih) := by
@@ -58,27 +65,25 @@ theorem dinv_tamper {s : State} (h : DInv s) (id ih : String) : DInv (tamper s i
     unfold tamper State.deadIds
     dsimp only
     exact dbModify_keys _ _ _
-  refine ⟨?_, h.fresh, ?_⟩
-  · rw [hk]; exact h.inv
-  · rw [hk]; exact h.nodup
+  refine ⟨?_, h.invNodup, ?_, ?_, h.fresh, ?_⟩
+  · rw [hk]; exact h.deadNodup
+  · rw [hk]; exact h.deadInv
+  · rw [hk]; exact h.invSrc
+  · rw [hk]; exact h.wdead
 
 theorem dinv_release {s : State} (h : DInv s) (f : List Nat) : DInv { s with free := f } :=
-  dinv_same h rfl rfl (fun _ hi => Or.inl hi) (fun _ hi => Or.inr hi)
+  dinv_same h rfl rfl (fun _ hi => hi) (fun _ hq _ => hq) (fun _ hq _ => hq)
 
-/-- A new add in flight whose id is not an invalid one. -/
-theorem dinv_reserve {s : State} (h : DInv s) (f : List Nat) (q : Pending) (hq : q.id ∉ s.invalid) :
+/-- A new add in flight (whatever its id: an explicit id may be one that is listed as invalid). -/
+theorem dinv_reserve {s : State} (h : DInv s) (f : List Nat) (q : Pending) (hq : q.stage ≠ .written) :
     DInv { s with free := f, pending := q :: s.pending } := by
-  refine ⟨h.inv, ?_, h.nodup⟩
-  intro id hid
-  obtain ⟨h1, h2⟩ := h.fresh id hid
-  refine ⟨h1, ?_⟩
-  intro hc
-  rcases List.mem_cons.1 (show id ∈ q.id :: s.pendIds from hc) with rfl | hc
-  · exact hq hid
-  · exact h2 hc
+  refine dinv_same h rfl rfl (fun _ hi => hi) (fun _ hq2 _ => List.mem_cons_of_mem _ hq2) (fun q2 hq2 hw => ?_)
+  rcases List.mem_cons.1 hq2 with rfl | h2
+  · exact absurd hw hq
+  · exact h2
 
-theorem dinv_addBegin {s : State} (h : DInv s) (m : Meta) (o : Opts) (p : Nat) (gen : String) (sf : Bool)
-    (ho : ∀ id, o.id = some id → id ∉ s.invalid) : DInv (addBegin s m o p gen sf).1 := by
+theorem dinv_addBegin {s : State} (h : DInv s) (m : Meta) (o : Opts) (p : Nat) (gen : String) (sf : Bool) :
+    DInv (addBegin s m o p gen sf).1 := by
   unfold addBegin addBeginWith
   by_cases h0 : s.free = []
   · rw [if_pos h0]; exact h
@@ -87,30 +92,35 @@ theorem dinv_addBegin {s : State} (h : DInv s) (m : Meta) (o : Opts) (p : Nat) (
   · rw [if_pos hp]; exact h
   rw [if_neg hp]
   dsimp only
-  cases hid : o.id with
+  cases o.id with
   | some gid =>
     dsimp only
     split
     · exact dinv_release h _
     split
     · exact dinv_release h _
-    · exact dinv_reserve h _ _ (ho gid hid)
+    · exact dinv_reserve h _ _ (by simp)
   | none =>
     dsimp only
-    by_cases hfresh : gen ∈ State.regIds { s with free := s.free.erase p } ∨
-        gen ∈ State.pendIds { s with free := s.free.erase p } ∨ gen ∈ State.dbIds { s with free := s.free.erase p } ∨
-        gen ∈ State.deadIds { s with free := s.free.erase p }
-    · rw [if_pos hfresh]; exact h
-    rw [if_neg hfresh]
+    split
+    · exact h
     split
     · exact dinv_release h _
-    · refine dinv_reserve h _ _ ?_
-      simp only [not_or] at hfresh
-      rw [h.inv]
-      exact hfresh.2.2.2
+    · exact dinv_reserve h _ _ (by simp)
 
-theorem pendIds_erase_sub {s : State} (q : Pending) : ∀ id ∈ (s.pending.erase q).map (·.id), id ∈ s.pendIds :=
-  fun _ hi => ((List.erase_sublist).map _).subset hi
+theorem mem_erase_written {l : List Pending} {q q2 : Pending} (h2 : q2 ∈ l) (hw : q2.stage = .written)
+    (hq : q.stage ≠ .written) : q2 ∈ l.erase q :=
+  (List.mem_erase_of_ne (fun e => hq (by rw [← e]; exact hw))).2 h2
+
+/-- An add that has not written moves to another not-yet-written stage, or gives up. -/
+theorem dinv_restage {s : State} (h : DInv s) (q : Pending) (hq : q.stage ≠ .written) (l : List Pending)
+    (hl : ∀ x ∈ l, x.stage ≠ .written) (f : List Nat) :
+    DInv { s with pending := l ++ s.pending.erase q, free := f } := by
+  refine dinv_same h rfl rfl (fun _ hi => hi) (fun q2 h2 hw => ?_) (fun q2 h2 hw => ?_)
+  · exact List.mem_append_right _ (mem_erase_written h2 hw hq)
+  · rcases List.mem_append.1 h2 with h3 | h3
+    · exact absurd hw (hl q2 h3)
+    · exact List.mem_of_mem_erase h3
 
 theorem dinv_addBuild {s : State} (h : DInv s) (q : Pending) (ok : Bool) : DInv (addBuild s q ok).1 := by
   unfold addBuild
@@ -118,14 +128,10 @@ theorem dinv_addBuild {s : State} (h : DInv s) (q : Pending) (ok : Bool) : DInv 
   · rw [if_pos hc]; exact h
   rw [if_neg hc]
   simp only [not_or, Classical.not_not] at hc
+  have hnw : q.stage ≠ .written := by rw [hc.2]; simp
   cases ok with
-  | true =>
-    refine dinv_same h rfl rfl (fun _ hi => Or.inl hi) (fun i hi => Or.inr ?_)
-    rcases List.mem_cons.1 (show i ∈ q.id :: (s.pending.erase q).map (·.id) from hi) with rfl | hi
-    · exact mem_pendIds hc.1
-    · exact pendIds_erase_sub q i hi
-  | false =>
-    exact dinv_same h rfl rfl (fun _ hi => Or.inl hi) (fun i hi => Or.inr (pendIds_erase_sub q i hi))
+  | true => simpa using dinv_restage h q hnw [{ q with stage := .built }] (by simp) s.free
+  | false => simpa using dinv_restage h q hnw [] (by simp) (q.port :: s.free)
 
 theorem dinv_addWrite {s : State} (h : DInv s) (q : Pending) (ok : Bool) : DInv (addWrite s q ok).1 := by
   unfold addWrite
@@ -133,21 +139,30 @@ theorem dinv_addWrite {s : State} (h : DInv s) (q : Pending) (ok : Bool) : DInv 
   · rw [if_pos hc]; exact h
   rw [if_neg hc]
   simp only [not_or, Classical.not_not] at hc
+  have hnw : q.stage ≠ .written := by rw [hc.2]; simp
   cases ok with
+  | false => simpa using dinv_restage h q hnw [] (by simp) (q.port :: s.free)
   | true =>
-    have hnd : q.id ∉ s.dead.map (·.1) := by
-      intro hcc
-      have : q.id ∈ s.invalid := by rw [h.inv]; exact hcc
-      exact (h.fresh _ this).2 (mem_pendIds hc.1)
-    have hf : s.dead.filter (fun e => e.1 != q.id) = s.dead := filter_ne_of_notMem (·.1) s.dead q.id hnd
     simp only [if_true]
-    rw [hf]
-    refine dinv_same h rfl rfl (fun _ hi => Or.inl hi) (fun i hi => Or.inr ?_)
-    rcases List.mem_cons.1 (show i ∈ q.id :: (s.pending.erase q).map (·.id) from hi) with rfl | hi
-    · exact mem_pendIds hc.1
-    · exact pendIds_erase_sub q i hi
-  | false =>
-    exact dinv_same h rfl rfl (fun _ hi => Or.inl hi) (fun i hi => Or.inr (pendIds_erase_sub q i hi))
+    have hsub : (s.dead.filter (fun e => e.1 != q.id)).Sublist s.dead := List.filter_sublist
+    have hmem : ∀ id, id ∈ (s.dead.filter (fun e => e.1 != q.id)).map (·.1) ↔ id ∈ s.deadIds ∧ id ≠ q.id := by
+      intro id
+      rw [map_filter_key (·.1) s.dead q.id, List.mem_filter]
+      simp [State.deadIds]
+    refine ⟨(hsub.map _).nodup h.deadNodup, h.invNodup, ?_, ?_, h.fresh, ?_⟩
+    · intro id hid
+      exact h.deadInv id ((hmem id).1 hid).1
+    · intro id hid
+      by_cases he : id = q.id
+      · exact Or.inr ⟨{ q with stage := .written }, List.mem_cons_self, he.symm, rfl⟩
+      · rcases h.invSrc id hid with h1 | ⟨q2, hq2, he2, hw2⟩
+        · exact Or.inl ((hmem id).2 ⟨h1, he⟩)
+        · exact Or.inr ⟨q2, List.mem_cons_of_mem _ (mem_erase_written hq2 hw2 hnw), he2, hw2⟩
+    · intro q2 hq2 hw2 hc2
+      have hc2 := (hmem q2.id).1 hc2
+      rcases List.mem_cons.1 hq2 with rfl | h3
+      · exact hc2.2 rfl
+      · exact h.wdead q2 (List.mem_of_mem_erase h3) hw2 hc2.1
 
 theorem dinv_addInsert {s : State} (h : DInv s) (q : Pending) : DInv (addInsert s q).1 := by
   unfold addInsert
@@ -155,17 +170,34 @@ theorem dinv_addInsert {s : State} (h : DInv s) (q : Pending) : DInv (addInsert 
   · rw [if_pos hc]; exact h
   rw [if_neg hc]
   simp only [not_or, Classical.not_not] at hc
-  refine dinv_same h rfl rfl (fun i hi => ?_) (fun i hi => Or.inr (pendIds_erase_sub q i hi))
-  have hi : i ∈ (regPut s.reg ⟨q.id, freshFields q.m q.o q.port⟩).map (·.id) := hi
-  unfold regPut at hi
-  rcases List.mem_cons.1 (by simpa using hi : i ∈ q.id :: (s.reg.filter (fun x => x.id != q.id)).map (·.id)) with rfl | hi
-  · exact Or.inr (mem_pendIds hc.1)
-  · exact Or.inl (((List.filter_sublist).map _).subset hi)
+  have hqd : q.id ∉ s.deadIds := h.wdead q hc.1 hc.2
+  have hmem : ∀ id, id ∈ s.invalid.erase q.id ↔ id ∈ s.invalid ∧ id ≠ q.id := by
+    intro id
+    rw [h.invNodup.mem_erase_iff]
+    exact And.comm
+  refine ⟨h.deadNodup, h.invNodup.sublist List.erase_sublist, ?_, ?_, ?_, ?_⟩
+  · intro id hid
+    exact (hmem id).2 ⟨h.deadInv id hid, fun e => hqd (e ▸ hid)⟩
+  · intro id hid
+    obtain ⟨hid, hne⟩ := (hmem id).1 hid
+    rcases h.invSrc id hid with h1 | ⟨q2, hq2, he2, hw2⟩
+    · exact Or.inl h1
+    · refine Or.inr ⟨q2, (List.mem_erase_of_ne ?_).2 hq2, he2, hw2⟩
+      intro e; subst e; exact hne he2.symm
+  · intro id hid hc2
+    obtain ⟨hid, hne⟩ := (hmem id).1 hid
+    have hc2 : id ∈ (regPut s.reg ⟨q.id, freshFields q.m q.o q.port⟩).map (·.id) := hc2
+    unfold regPut at hc2
+    rcases List.mem_cons.1 (by simpa using hc2 : id ∈ q.id :: (s.reg.filter (fun x => x.id != q.id)).map (·.id)) with rfl | h3
+    · exact hne rfl
+    · exact h.fresh id hid (((List.filter_sublist).map _).subset h3)
+  · intro q2 hq2 hw2
+    exact h.wdead q2 (List.mem_of_mem_erase hq2) hw2
 
-theorem dinv_addSeq {s : State} (h : DInv s) (m : Meta) (o : Opts) (p : Nat) (gen : String) (e : Env)
-    (ho : ∀ id, o.id = some id → id ∉ s.invalid) : DInv (addSeq s m o p gen e).1 := by
+theorem dinv_addSeq {s : State} (h : DInv s) (m : Meta) (o : Opts) (p : Nat) (gen : String) (e : Env) :
+    DInv (addSeq s m o p gen e).1 := by
   unfold addSeq
-  have h1 := dinv_addBegin h m o p gen e.stoFail ho
+  have h1 := dinv_addBegin h m o p gen e.stoFail
   generalize addBegin s m o p gen e.stoFail = r1 at h1
   obtain ⟨s1, res1⟩ := r1
   cases res1 with
@@ -197,12 +229,19 @@ theorem dinv_addSeq {s : State} (h : DInv s) (m : Meta) (o : Opts) (p : Nat) (ge
           · exact h4
           · exact dinv_start h4 _
 
-theorem dinv_openOn (lo hi : Nat) (resume : Bool) (db : List (String × Fields)) : DInv (openOn lo hi resume db) := by
-  obtain ⟨h1, h2, _⟩ := openOn_dead lo hi resume db
-  refine ⟨?_, ?_, ?_⟩
-  · rw [h2, State.deadIds, h1]; rfl
-  · intro id hid; rw [h2] at hid; cases hid
+/-- A state without failed records, invalid ids and adds in flight. -/
+theorem dinv_of_nil {s : State} (h1 : s.dead = []) (h2 : s.invalid = []) (h3 : s.pending = []) : DInv s := by
+  refine ⟨?_, ?_, ?_, ?_, ?_, ?_⟩
   · rw [State.deadIds, h1]; exact List.nodup_nil
+  · rw [h2]; exact List.nodup_nil
+  · intro id hid; rw [State.deadIds, h1] at hid; cases hid
+  · intro id hid; rw [h2] at hid; cases hid
+  · intro id hid; rw [h2] at hid; cases hid
+  · intro q hq; rw [h3] at hq; cases hq
+
+theorem dinv_openOn (lo hi : Nat) (resume : Bool) (db : List (String × Fields)) : DInv (openOn lo hi resume db) := by
+  obtain ⟨h1, h2, h3⟩ := openOn_dead lo hi resume db
+  exact dinv_of_nil h1 h2 h3
 
 theorem dinv_compactSwap {s : State} (h : DInv s) (resume : Bool) : DInv (compactSwap s resume) := by
   unfold compactSwap
@@ -233,66 +272,83 @@ theorem dinv_reopen {s : State} (h : Inv s) (hd : DInv s) (resume : Bool) (bad :
   have hgn : (((updateStats s).db.filter (fun e => !bad.contains e.1)).map (·.1)).Nodup := (hsub.map _).nodup h2.dbIds_nodup
   obtain ⟨hreg, _, _, _⟩ := openOn_state s.lo s.hi resume _ hgn
   obtain ⟨_, _, hpend⟩ := openOn_dead s.lo s.hi resume ((updateStats s).db.filter (fun e => !bad.contains e.1))
+  have hfn : ((((updateStats s).db ++ s.dead).filter (fun e => bad.contains e.1)).map (·.1)).Nodup :=
+    ((List.filter_sublist).map _).nodup (bucket_nodup h2 hd2)
   rw [hre]
-  refine ⟨rfl, ?_, ?_⟩
-  · intro id hid
+  refine ⟨hfn, hfn, fun _ hid => hid, fun _ hid => Or.inl hid, ?_, ?_⟩
+  · intro id hid hc
     have hid : id ∈ (((updateStats s).db ++ s.dead).filter (fun e => bad.contains e.1)).map (·.1) := hid
     obtain ⟨e, he, rfl⟩ := List.mem_map.1 hid
     have hbe : bad.contains e.1 = true := (List.mem_filter.1 he).2
-    refine ⟨?_, ?_⟩
-    · intro hc
-      have hc : e.1 ∈ (openOn s.lo s.hi resume ((updateStats s).db.filter (fun e => !bad.contains e.1))).reg.map (·.id) := hc
-      rw [hreg] at hc
-      obtain ⟨t', ht', he'⟩ := List.mem_map.1 hc
-      obtain ⟨e2, he2, rfl⟩ := List.mem_map.1 (List.mem_reverse.1 ht')
-      have := (List.mem_filter.1 he2).2
-      simp only [loaded] at he'
-      rw [he', hbe] at this
-      cases this
-    · intro hc
-      have hc : e.1 ∈ (openOn s.lo s.hi resume ((updateStats s).db.filter (fun e => !bad.contains e.1))).pending.map (·.id) := hc
-      rw [hpend] at hc
-      cases hc
-  · show ((((updateStats s).db ++ s.dead).filter (fun e => bad.contains e.1)).map (·.1)).Nodup
-    exact ((List.filter_sublist).map _).nodup (bucket_nodup h2 hd2)
+    have hc : e.1 ∈ (openOn s.lo s.hi resume ((updateStats s).db.filter (fun e => !bad.contains e.1))).reg.map (·.id) := hc
+    rw [hreg] at hc
+    obtain ⟨t', ht', he'⟩ := List.mem_map.1 hc
+    obtain ⟨e2, he2, rfl⟩ := List.mem_map.1 (List.mem_reverse.1 ht')
+    have := (List.mem_filter.1 he2).2
+    simp only [loaded] at he'
+    rw [he', hbe] at this
+    cases this
+  · intro q hq
+    have hq : q ∈ (openOn s.lo s.hi resume ((updateStats s).db.filter (fun e => !bad.contains e.1))).pending := hq
+    rw [hpend] at hq
+    cases hq
+
+/-- `CleanDatabase` while no add whose id is listed invalid is in flight. -/
+theorem invalid_not_db {s : State} (h : Inv s) (hd : DInv s) (ht : ∀ q ∈ s.pending, q.id ∉ s.invalid) :
+    ∀ id ∈ s.invalid, id ∉ s.dbIds := by
+  intro id hid hc
+  rcases h.dbId_src hc with h1 | ⟨q, hq, rfl, _⟩
+  · exact hd.fresh id hid h1
+  · exact ht q hq hid
+
+theorem invalid_dead {s : State} (hd : DInv s) (ht : ∀ q ∈ s.pending, q.id ∉ s.invalid) :
+    ∀ id ∈ s.invalid, id ∈ s.deadIds := by
+  intro id hid
+  rcases hd.invSrc id hid with h1 | ⟨q, hq, rfl, _⟩
+  · exact h1
+  · exact absurd hid (ht q hq)
+
+theorem dead_filter_invalid {s : State} (hd : DInv s) : s.dead.filter (fun e => !s.invalid.contains e.1) = [] := by
+  apply filter_eq_nil_of_all
+  intro e he
+  have : e.1 ∈ s.invalid := hd.deadInv e.1 (List.mem_map_of_mem (f := (·.1)) he)
+  simpa using this
 
 theorem dinv_clean {s : State} (hd : DInv s) : DInv (clean s).1 := by
   unfold clean
   split
-  · have : s.dead.filter (fun e => !s.invalid.contains e.1) = [] := by
-      apply filter_eq_nil_of_all
-      intro e he
-      have : e.1 ∈ s.invalid := by rw [hd.inv]; exact List.mem_map_of_mem (f := (·.1)) he
-      simpa using this
-    dsimp only
-    rw [this]
-    refine ⟨rfl, ?_, List.nodup_nil⟩
-    intro id hid; cases hid
+  · dsimp only
+    rw [dead_filter_invalid hd]
+    refine ⟨List.nodup_nil, List.nodup_nil, ?_, ?_, ?_, ?_⟩
+    · intro id hid; cases hid
+    · intro id hid; cases hid
+    · intro id hid; cases hid
+    · intro q _ _ hc; cases hc
   · exact hd
 
-/-- `CleanDatabase` in a state of a tame history succeeds, deletes exactly the records that did not
-load and empties the invalid list; nothing else changes. -/
-theorem clean_spec {s : State} (h : Inv s) (hd : DInv s) :
+/-- `CleanDatabase` in a state of a tame history, with no add under an invalid id in flight, succeeds,
+deletes exactly the records that did not load and empties the invalid list; nothing else changes. -/
+theorem clean_spec {s : State} (h : Inv s) (hd : DInv s) (ht : ∀ q ∈ s.pending, q.id ∉ s.invalid) :
     (clean s).2 = true ∧ (clean s).1.dead = [] ∧ (clean s).1.invalid = [] ∧ (clean s).1.db = s.db ∧
     (clean s).1.free = s.free ∧ (clean s).1.reg = s.reg ∧ (clean s).1.idx = s.idx ∧ (clean s).1.pending = s.pending := by
   have hall : s.invalid.all (fun id => s.dbIds.contains id || s.deadIds.contains id) = true := by
     rw [List.all_eq_true]
     intro id hid
-    have : id ∈ s.deadIds := by rw [← hd.inv]; exact hid
+    have : id ∈ s.deadIds := invalid_dead hd ht id hid
     simp [this]
-  have hdead : s.dead.filter (fun e => !s.invalid.contains e.1) = [] := by
-    apply filter_eq_nil_of_all
-    intro e he
-    have : e.1 ∈ s.invalid := by rw [hd.inv]; exact List.mem_map_of_mem (f := (·.1)) he
-    simpa using this
   have hdb : s.db.filter (fun e => !s.invalid.contains e.1) = s.db := by
     apply List.filter_eq_self.2
     intro e he
-    have : e.1 ∉ s.invalid := fun hc => hd.not_db h hc (List.mem_map_of_mem (f := (·.1)) he)
+    have : e.1 ∉ s.invalid := fun hc => invalid_not_db h hd ht e.1 hc (List.mem_map_of_mem (f := (·.1)) he)
     simpa using this
   unfold clean
   rw [if_pos hall]
-  exact ⟨rfl, hdead, rfl, hdb, rfl, rfl, rfl, rfl⟩
+  exact ⟨rfl, dead_filter_invalid hd, rfl, hdb, rfl, rfl, rfl, rfl⟩
+
+theorem tame_clean {s : State} (ht : tame s .clean = true) : ∀ q ∈ s.pending, q.id ∉ s.invalid := by
+  intro q hq
+  have := List.all_eq_true.1 ht q hq
+  simpa using this
 
 /-! ### The invariant along tame histories -/
 
@@ -301,18 +357,11 @@ def Good (s : State) : Prop := Inv s ∧ DInv s
 
 theorem init_good (lo hi : Nat) : Good (init lo hi) := ⟨init_inv lo hi, init_dinv lo hi⟩
 
-theorem tame_add {s : State} {o : Opts} (h : (match o.id with
-    | some id => !s.invalid.contains id
-    | none => true) = true) : ∀ id, o.id = some id → id ∉ s.invalid := by
-  intro id hid
-  rw [hid] at h
-  simpa using h
-
 theorem good_step {s : State} (h : Good s) {op : Op} (ht : tame s op = true) : Good (step s op) := by
   obtain ⟨h, hd⟩ := h
   cases op with
-  | add m o p gen e => exact ⟨inv_addSeq h m o p gen e, dinv_addSeq hd m o p gen e (tame_add ht)⟩
-  | abegin m o p gen sf => exact ⟨inv_addBegin h m o p gen sf, dinv_addBegin hd m o p gen sf (tame_add ht)⟩
+  | add m o p gen e => exact ⟨inv_addSeq h m o p gen e, dinv_addSeq hd m o p gen e⟩
+  | abegin m o p gen sf => exact ⟨inv_addBegin h m o p gen sf, dinv_addBegin hd m o p gen sf⟩
   | abuild q ok => exact ⟨inv_addBuild h q ok, dinv_addBuild hd q ok⟩
   | awrite q ok => exact ⟨inv_addWrite h q ok, dinv_addWrite hd q ok⟩
   | ainsert q => exact ⟨inv_addInsert h q, dinv_addInsert hd q⟩
@@ -329,7 +378,7 @@ theorem good_step {s : State} (h : Good s) {op : Op} (ht : tame s op = true) : G
       simpa using this
     exact ⟨inv_reopen h r bad hb, dinv_reopen h hd r bad hb⟩
   | compactSwap r => exact ⟨inv_compactSwap h r, dinv_compactSwap hd r⟩
-  | clean => exact ⟨inv_clean h (fun id hid => hd.not_db h hid), dinv_clean hd⟩
+  | clean => exact ⟨inv_clean h (invalid_not_db h hd (tame_clean ht)), dinv_clean hd⟩
   | tamper id ih => exact ⟨inv_tamper h id ih, dinv_tamper hd id ih⟩
 
 theorem good_run : ∀ (ops : List Op) {s : State}, Good s → tameRun s ops = true → Good (run s ops)
@@ -368,6 +417,6 @@ theorem lostPorts_nil_of_conservation {o : Obs} (h : portConservation o = true) 
 /-- Histories without restarts-with-failures and explicit ids are tame whatever else they do; in
 particular every history of the machine before records could fail to load. -/
 theorem tame_of_no_dead {s : State} {op : Op} (hd : s.dead = []) (hi : s.invalid = []) : tame s op = true := by
-  cases op <;> simp [tame, hd, hi] <;> (split <;> rfl)
+  cases op <;> simp [tame, hd, hi]
 
 end Rain.Registry
